@@ -119,6 +119,11 @@ class CaseEval:
         if isinstance(e, ast.IfExp):
             t = self.ev(e.test).truth()
             if t is None:
+                a, b = self.ev(e.body), self.ev(e.orelse)
+                if a == b:
+                    return a
+                if a.origin is None and b.origin is None:
+                    return fresh(e)  # whichever branch runs, the result is not the distinguished input
                 raise Undecided(f"truthiness of `{norm(e.test)}` unknown")
             return self.ev(e.body if t else e.orelse)
         if isinstance(e, ast.Compare) and len(e.ops) == 1:
